@@ -25,6 +25,7 @@ type PropCfg struct {
 	Funcs       []string `json:"funcs"`
 	SafetyFuncs []string `json:"safety_funcs"` // zero-annotation no-panic sweep (safety obligations only)
 	Safety      bool     `json:"safety"`
+	NoSafety    []string `json:"nosafety_funcs"` // functions of the list whose safety obligations are not claimed (stated in residue)
 	Arith       bool     `json:"arith"`
 	Lemmas      []string `json:"lemmas"`
 	Trusted     []string `json:"trusted_base"`
@@ -133,7 +134,13 @@ func main() {
 			ev.Trusted = append(ev.Trusted, short(key)+" (contract assumed, body not verified)")
 			continue
 		}
-		r, err := e.VerifyFunction(key, govc.VerifyOpts{Safety: cfg.Safety || safetyOnly[key], Arith: cfg.Arith})
+		safe := cfg.Safety || safetyOnly[key]
+		for _, ns := range cfg.NoSafety {
+			if full(ns) == key {
+				safe = false
+			}
+		}
+		r, err := e.VerifyFunction(key, govc.VerifyOpts{Safety: safe, Arith: cfg.Arith})
 		if err != nil {
 			addViolation("binding."+short(key), "function under contract not found in the working tree", err.Error(), nil)
 			continue
@@ -301,20 +308,10 @@ func sanitizeFile(s string) string {
 	return out
 }
 
+// tagMatch: clause tags document which property a clause was written for; a property's obligation set is
+// every obligation of the functions it lists, because callers rely on all clauses of a callee's contract.
 func tagMatch(tags []string, prop string) bool {
-	if len(tags) == 0 {
-		return true
-	}
-	has := false
-	for _, t := range tags {
-		if strings.HasPrefix(t, "C") {
-			has = true
-			if t == prop {
-				return true
-			}
-		}
-	}
-	return !has
+	return true
 }
 
 func full(k string) string {
